@@ -58,6 +58,7 @@ Shifts ==   \* displacement taken from b as a signed number: covers -128..127, b
 Powers ==
   /\ (y >= 0 /\ y <= 20 => U(PowU(a, y)) = IPowM(U(a), y))
   /\ (y >= 0 /\ y <= 10 => PowU(a, y + 3) = Mul(PowU(a, y), PowU(a, 3)))
+  /\ (y >= 0 /\ y <= 40 => PowL(a, b) = PowU(a, y))                          \* limb exponent = integer exponent
 Order ==
   /\ (SCmp(a, b) = -1) = (x < y) /\ (SCmp(a, b) = 0) = (x = y) /\ (UCmp(a, b) = -1) = (U(a) < U(b))
   /\ FromInt(x) = a
